@@ -259,7 +259,7 @@ def run_query_part(prop, tier, seed, v, cov, binary, wd, scripts, only=None):
         cov["query_stimuli_skipped"] += st["skipped"]
         cov["traces_validated_against_impl"] += tv["accepted_segments"]
         if st.get("stopped_early"):
-            log("  note: a query driver stopped early after %s scenarios that hung or left something behind" % len(st["notes"]))
+            log("  note: a query driver stopped early (too many scenarios hung or left something behind)")
         if len(cov["samples"]) < 10 and lines:
             cov["samples"] += [json.loads(x) for x in lines[:10 - len(cov["samples"])]]
         for x in lines:
